@@ -277,21 +277,104 @@ theorem C11_mkInst_unique (d : Dict) (h : AttrNamesUnique d) (p : PInst) : Uniqu
       simpa [List.map_map, Function.comp_def] using this
     exact eq_of_nodup_keys (fun a : Attr => (a.owner, a.name)) _ hkeys a ha b hb (by simp [ho, hn])
 
-/-- **the resolver on dictionary + population**: when the inverse attribute has a slot (always, by `C11_slots_cover`) the
-    result is `specRefs` of the loaded instances — with `mkInst` giving each instance the supertype closure of its keyword
-    (`C11_types_closure`) and its attributes in `attrOrder` layout, and `mkIA` the descriptor `InitIAttrs` links -/
+/-- the tie: `EntityDescriptor::InitIAttrs` never leaves its loop over the inverse attributes early (regenerated from entityDescriptor.cc) -/
+theorem C11_initIAttrs_shape : initIAttrsPerInverse = true := rfl
+
+theorem initIAttrsWith_true (d : Dict) (l : List InvDecl) :
+    initIAttrsWith true d l = l.map (fun iv => (iv, attrOwner d iv.over iv.attrName)) := by
+  induction l with
+  | nil => rfl
+  | cons iv t ih => simp [initIAttrsWith, ih]
+
+/-- **every inverse attribute is linked to its inverted attribute on its own**: whatever its position among the inverse attributes
+    of the declaring entity and wherever its siblings' inverted attributes were found, `ia->inverted_attr_()` is the descriptor the
+    search of `attrOwner` yields -/
+theorem C11_inverted_attr_linked (d : Dict) (k e : Nat) (iv : InvDecl) (hdecl : declarerOf d k iv = some e) :
+    linkedOwner d k iv = attrOwner d iv.over iv.attrName := by
+  unfold linkedOwner initIAttrs
+  have hmem : iv ∈ invsOf d e := by
+    unfold declarerOf at hdecl
+    have := List.find?_some hdecl
+    simpa using this
+  rw [hdecl, C11_initIAttrs_shape]
+  simp only
+  rw [initIAttrsWith_true]
+  generalize invsOf d e = l at hmem ⊢
+  induction l with
+  | nil => cases hmem
+  | cons j t ih =>
+    simp only [List.map_cons, List.find?_cons]
+    by_cases hj : j = iv
+    · subst hj; simp
+    · have hj' : (j == iv) = false := by simpa using hj
+      simp only [hj']
+      rcases List.mem_cons.mp hmem with h | h
+      · exact absurd h.symm hj
+      · exact ih h
+
+/-- … and for a well-formed dictionary (acyclic; the inverted attribute is declared by the inverted entity or by one of its supertypes, at
+    any depth, along any path) that descriptor exists: no inverse attribute with a slot is left with a null inverted attribute -/
+theorem C11_inverted_attr_resolved (d : Dict) (rank : Nat → Nat) (h : Ranked d rank) (k : Nat) (iv : InvDecl)
+    (hs : iv ∈ slots d k)
+    (hwf : ∃ e, SupStar d iv.over e ∧ (attrsOf d e).any (fun p => p.1 == iv.attrName) = true) :
+    (linkedOwner d k iv).isSome = true := by
+  have hdecl : ∃ e, declarerOf d k iv = some e := by
+    unfold slots slotsWith scannedWith at hs
+    rw [C11_iterator_shape] at hs
+    simp only [↓reduceIte, mem_dedupBy, List.mem_flatMap] at hs
+    obtain ⟨e, he, hie⟩ := hs
+    have : (declarerOf d k iv).isSome = true := by
+      unfold declarerOf
+      rw [List.find?_isSome]
+      exact ⟨e, he, by simpa using hie⟩
+    cases hd : declarerOf d k iv with
+    | none => rw [hd] at this; cases this
+    | some e' => exact ⟨e', rfl⟩
+  obtain ⟨e, he⟩ := hdecl
+  rw [C11_inverted_attr_linked d k e iv he]
+  exact (C11_attr_owner d rank h iv.over iv.attrName).2 hwf
+
+/-- **the resolver on dictionary + population**: when the inverse attribute has a slot (always, by `C11_slots_cover`) and its
+    inverted attribute is declared by entity `o` (found by `InitIAttrs`, `C11_inverted_attr_resolved`), the result is `specRefs` of
+    the loaded instances — with `mkInst` giving each instance the supertype closure of its keyword (`C11_types_closure`) and its
+    attributes in `attrOrder` layout -/
 theorem C11_exact_dict (d : Dict) (hd : AttrNamesUnique d) (pop : List PInst) (x k : Nat) (iv : InvDecl) (hs : iv ∈ slots d k)
-    (ha : iv.aggr = true) :
-    resolveD d pop x k iv = .ok (specRefs (pop.map (mkInst d)) x (mkIA d iv)) := by
+    (o : Nat) (ho : attrOwner d iv.over iv.attrName = some o) (ha : iv.aggr = true) :
+    resolveD d pop x k iv = .ok (specRefs (pop.map (mkInst d)) x (mkIA iv o)) := by
+  have hdecl : ∃ e, declarerOf d k iv = some e := by
+    have hs' := hs
+    unfold slots slotsWith scannedWith at hs'
+    rw [C11_iterator_shape] at hs'
+    simp only [↓reduceIte, mem_dedupBy, List.mem_flatMap] at hs'
+    obtain ⟨e, he, hie⟩ := hs'
+    have : (declarerOf d k iv).isSome = true := by
+      unfold declarerOf
+      rw [List.find?_isSome]
+      exact ⟨e, he, by simpa using hie⟩
+    cases hd' : declarerOf d k iv with
+    | none => rw [hd'] at this; cases this
+    | some e' => exact ⟨e', rfl⟩
+  obtain ⟨e, he⟩ := hdecl
+  have hl : linkedOwner d k iv = some o := by rw [C11_inverted_attr_linked d k e iv he, ho]
   unfold resolveD
   have : (slots d k).contains iv = true := by simpa using hs
-  simp only [this, Bool.not_true, Bool.false_eq_true, ↓reduceIte]
+  simp only [this, Bool.not_true, Bool.false_eq_true, ↓reduceIte, hl]
   apply C11_exact
   · intro i hi
     rw [List.mem_map] at hi
     obtain ⟨p, hp, rfl⟩ := hi
     exact C11_mkInst_unique d hd p
   · simpa [mkIA] using ha
+
+/-- the seeded shape of `InitIAttrs` (C11-d2: the supertype branch `return`s out of the loop): entity 0 declares
+    `inv0 : SET OF rsub(4) FOR one(10)` — `one` is declared by `rel`(3), the supertype of `rsub` — and then
+    `inv1 : SET OF qel(5) FOR q1(30)`; the second one is never linked and stays empty.  Linked on its own, it points to `qel` -/
+theorem C11_initIAttrs_early_return_witness :
+    let d : Dict := [⟨0, [], [], [], [⟨0, true, 4, 10⟩, ⟨1, true, 5, 30⟩]⟩, ⟨3, [], [(10, false)], [], []⟩,
+                     ⟨4, [3], [], [], []⟩, ⟨5, [], [(30, false)], [], []⟩]
+    initIAttrsWith false d (invsOf d 0) = [(⟨0, true, 4, 10⟩, some 3), (⟨1, true, 5, 30⟩, none)] ∧
+    initIAttrsWith true d (invsOf d 0) = [(⟨0, true, 4, 10⟩, some 3), (⟨1, true, 5, 30⟩, some 5)] := by
+  decide
 
 /-- dictionary of the witnesses below: 0 `tg` (inverse `byr : SET OF rel FOR one`), 1 `tsub < tg`, 2 `tsub2 < tsub`,
     3 `rel` (attribute 10 = `one`), 4 `rre < rel` redeclaring `one`, 5 `dl < tg`, 6 `dr < tg`, 7 `dj < (dl, dr)` -/
